@@ -180,13 +180,35 @@ def make_wrapper_class():
             super().__init__(verbose=verbose)
             self.script = script
             self.calls = []          # one snapshot per solve call
+            self.events, self.prepare_args, self.weights = [], [], []
 
         def solve(self, **kwargs):
             k = len(self.calls)
+            self.events.append([0, k + 1])
             snap = self.script(self, k)
             self.calls.append(snap)
             self.solver_name = "scripted"
             return "optimal", "scripted", snap["wc_value"]
+
+        # recording only: the real methods do the work
+        def assign_dual_values(self):
+            self.events.append([1, len(self.calls)])
+            return super().assign_dual_values()
+
+        def get_primal_variables(self):
+            self.events.append([2, len(self.calls)])
+            return super().get_primal_variables()
+
+        def prepare_heuristic(self, wc_value, tol_dimension_reduction):
+            self.events.append([3, len(self.calls)])
+            self.prepare_args.append((wc_value, tol_dimension_reduction))
+            return super().prepare_heuristic(wc_value, tol_dimension_reduction)
+
+        def heuristic(self, weight):
+            w = np.array(weight, dtype=float)
+            self.events.append([4, 0 if np.array_equal(w, np.identity(w.shape[0])) else 1])
+            self.weights.append(w)
+            return super().heuristic(weight)
 
     return ScriptedSolveWrapper
 
@@ -354,3 +376,168 @@ class DictRecorder(object):
 
 def frac_list(xs):
     return [str(to_fraction(float(x))) for x in xs]
+
+
+# ------------------------------------------------------------------------------------------ really solved models
+SOLVER_KW = dict(solver="SCS", eps_abs=1e-8, eps_rel=1e-8, max_iters=100000)
+
+
+def solvable_specs(rng, n, asym_every=6):
+    """bounded, feasible models: n gradient steps on an L-smooth mu-strongly convex function, optionally with a
+    user LMI tying a leaf expression t to the last iterate (metric t): 'sym' [[|x-xs|^2, t],[t, 1]],
+    'sym3' the same bordered to 3x3 with a second block, 'asym' [[|x-xs|^2, t],[s+1, 1]] (NOT symmetric as written:
+    known finding F-C01a); optional second metric and a function-level 1x1 LMI."""
+    out = []
+    for k in range(n):
+        lmi = rng.choice(["none", "sym", "sym", "sym3", "none"])
+        if asym_every and k % asym_every == asym_every - 1:
+            lmi = "asym"
+        out.append(dict(family="gd", L=rng.choice([1.0, 2.0, 4.0]), mu=rng.choice([0.0, 0.125, 0.25, 0.5]),
+                        n=rng.choice([1, 1, 2, 3]), gamma_num=rng.choice([2, 3, 4, 6]), lmi=lmi,
+                        metric=rng.choice(["dist", "fval"]), second_metric=rng.random() < 0.3,
+                        fun_lmi=rng.random() < 0.3, equality=rng.random() < 0.3))
+    return out
+
+
+F_C01A_TRIGGER = dict(family="gd", L=1.0, mu=0.1, n=1, gamma_num=4, lmi="asym", metric="dist", second_metric=False,
+                      fun_lmi=False, equality=False)
+
+
+def build_solvable(spec):
+    from PEPit import PEP, Expression
+    from PEPit.functions import SmoothStronglyConvexFunction
+    pep = PEP()
+    L = spec["L"]
+    f = pep.declare_function(SmoothStronglyConvexFunction, L=L, mu=min(spec["mu"], L / 2))
+    xs = f.stationary_point()
+    fs = f(xs)
+    x0 = pep.set_initial_point()
+    pep.set_initial_condition((x0 - xs) ** 2 <= 1)
+    gamma = spec["gamma_num"] / (4.0 * L)
+    x = x0
+    for _ in range(spec["n"]):
+        x = x - gamma * f.gradient(x)
+    base = (x - xs) ** 2 if spec["metric"] == "dist" or spec["lmi"] != "none" else f(x) - fs
+    if spec["lmi"] == "none":
+        pep.set_performance_metric(base)
+    else:
+        t = Expression()
+        if spec["lmi"] == "sym":
+            pep.add_psd_matrix([[base, t], [t, 1.]])
+        elif spec["lmi"] == "sym3":
+            pep.add_psd_matrix([[base, t, 0.], [t, 1., 0.], [0., 0., 2 - t]])
+        else:
+            s = Expression()
+            pep.add_psd_matrix([[base, t], [s + 1, 1.]])
+        pep.set_performance_metric(t)
+    if spec["second_metric"]:
+        pep.set_performance_metric(f(x) - fs + 2)
+    if spec["fun_lmi"]:
+        f.add_psd_matrix([[4 - (x0 - xs) ** 2]])
+    if spec["equality"]:
+        e = Expression()
+        pep.add_constraint(e == (x0 - xs) ** 2)
+    return pep
+
+
+def solve_real(spec, heuristic=None, mode="dual", tol=1e-4):
+    """returns (pep, returned value); pep.solver_statuses = the status cvxpy reported for each solve call"""
+    import re
+    pep = build_solvable(spec)
+    val, log = quiet(pep.solve, verbose=1, wrapper="cvxpy", return_primal_or_dual=mode,
+                     dimension_reduction_heuristic=heuristic, tol_dimension_reduction=tol, **SOLVER_KW)
+    st = re.findall(r"Solver status: (\w+)", log)
+    # with a heuristic the last status is printed twice (inside the logdet loop / after the block): keep call order
+    pep.solver_statuses = st
+    pep.all_optimal = bool(st) and all(x == "optimal" for x in st)
+    return pep, val
+
+
+def measure_certificate(pep, returned):
+    """OUR OWN residual of the identity over ALL keys, from the exposed multipliers; the stationarity residual of the
+    solver's raw output (entry duals included); signs and eigenvalues."""
+    from PEPit.tools.expressions_to_matrices import expression_to_matrices
+    from PEPit.constraint import Constraint
+    w = pep.wrapper
+    tracked = w._list_of_constraints_sent_to_solver
+    Gw_o, Fw_o, c_o = expression_to_matrices(pep.objective)
+    # identity:  obj - sum lam e + <res,G> + sum <S,E>  ==  tau   (as an affine function of symmetric G and F)
+    rF = Fw_o.copy()
+    rG = Gw_o + np.array(pep.residual, dtype=float)
+    const = c_o
+    min_ineq, min_eig = np.inf, np.min(np.linalg.eigvalsh((np.array(pep.residual) + np.array(pep.residual).T) / 2))
+    asym = False
+    for o in tracked:
+        if isinstance(o, Constraint):
+            lam = float(o.eval_dual())
+            Gw, Fw, c = expression_to_matrices(o.expression)
+            rF -= lam * Fw
+            rG -= lam * Gw
+            const -= lam * c
+            if o.equality_or_inequality == "inequality":
+                min_ineq = min(min_ineq, lam)
+        else:
+            S = np.array(o.eval_dual(), dtype=float)
+            min_eig = min(min_eig, np.min(np.linalg.eigvalsh((S + S.T) / 2)))
+            n, m = o.shape
+            for i in range(n):
+                for j in range(m):
+                    Gw, Fw, c = expression_to_matrices(o[i, j])
+                    rF += S[i, j] * Fw
+                    rG += S[i, j] * Gw
+                    const += S[i, j] * c
+                    if i < j:
+                        Gw2, Fw2, c2 = expression_to_matrices(o[j, i])
+                        if not (np.array_equal(Gw, Gw2) and np.array_equal(Fw, Fw2) and c == c2):
+                            asym = True
+    rG = (rG + rG.T) / 2
+    ident_res = max(np.max(np.abs(rF)) if rF.size else 0.0, np.max(np.abs(rG)) if rG.size else 0.0)
+    tau_ours = const
+    # stationarity of the raw solver output, entry duals included (the solver assumption)
+    cons = w.prob.constraints[:len(w._list_of_solver_constraints)]
+    duals = [c.dual_value for c in cons]
+    kF = Fw_o.copy()
+    kG = Gw_o + np.array(duals[0], dtype=float)
+    kM = 0.0
+    pos = 1
+    for o in tracked:
+        if isinstance(o, Constraint):
+            lam = float(duals[pos])
+            Gw, Fw, c = expression_to_matrices(o.expression)
+            kF -= lam * Fw
+            kG -= lam * Gw
+            pos += 1
+        else:
+            S = np.array(duals[pos], dtype=float)
+            pos += 1
+            n, m = o.shape
+            U = np.zeros((n, m))
+            for i in range(n):
+                for j in range(m):
+                    u = float(duals[pos])
+                    U[i, j] = u
+                    Gw, Fw, c = expression_to_matrices(o[i, j])
+                    kF += u * Fw
+                    kG += u * Gw
+                    pos += 1
+            kM = max(kM, np.max(np.abs((S + S.T) / 2 - (U + U.T) / 2)))
+    kG = (kG + kG.T) / 2
+    kkt = max(np.max(np.abs(kF)) if kF.size else 0.0, np.max(np.abs(kG)) if kG.size else 0.0, kM)
+    return dict(identity_residual=float(ident_res), tau_ours=float(tau_ours), returned=float(returned),
+                kkt_residual=float(kkt), min_inequality_dual=float(min_ineq if min_ineq < np.inf else 0.0),
+                min_eigenvalue=float(min_eig), asymmetric_lmi=bool(asym), primal=float(pep.objective.eval()),
+                n_constraints=len(tracked))
+
+
+def extract_weight(prob, wrapper):
+    """the matrix W of an objective Minimize(sum(multiply(G, W))), read off the cvxpy expression by evaluating it at
+    the matrix units"""
+    n = wrapper.G.shape[0]
+    W = np.zeros((n, n))
+    for i in range(n):
+        for j in range(n):
+            E = np.zeros((n, n))
+            E[i, j] = 1.0
+            wrapper.G.save_value(E)
+            W[i, j] = float(prob.objective.args[0].value)
+    return W
